@@ -27,9 +27,14 @@ class RunawayRun(BaseException):
 # it).  Wall-clock budgets; only armed in the main thread (signals are delivered there).
 SPIN_BUDGET_SYMBOLIC = 90.0     # an activation may contain many solver queries
 SPIN_BUDGET_CONCRETE = 15.0
+SPIN_BUDGET_AGAIN = 8.0
+
+
+_spin_hits = [0]
 
 
 def _on_spin(signum, frame):
+    _spin_hits[0] += 1
     raise Livelock('one activation did not end within its wall-clock budget (synchronous spin)')
 
 
@@ -37,6 +42,10 @@ def _guarded_run(orig, loop, target, signal):
     if _threading.current_thread() is not _threading.main_thread():
         return orig(loop, target, signal)
     budget = SPIN_BUDGET_CONCRETE if E.concrete else SPIN_BUDGET_SYMBOLIC
+    if _spin_hits[0]:
+        # once the watchdog has fired in this process (which is an alarm already) later paths
+        # running into the same spin are cut short
+        budget = min(budget, SPIN_BUDGET_AGAIN)
     old = _signal.signal(_signal.SIGALRM, _on_spin)
     _signal.setitimer(_signal.ITIMER_REAL, budget)
     try:
